@@ -16,6 +16,7 @@ mod timeout;
 mod wire;
 mod streams;
 mod pool;
+mod server;
 
 use std::io::{BufRead, Write};
 
@@ -38,6 +39,7 @@ fn gen(stream: &str, seed: u64, n: u64) -> Vec<String> {
                 "wire" => wire::gen(&mut r, i),
                 "st" => streams::gen(&mut r, i),
                 "pool" => pool::gen(&mut r, i),
+                "srv" => server::gen(&mut r, i),
                 "poolt" => { let b = pool::gen_timed(&mut r, i); if b.starts_with('X') { b } else { format!("X{b}") } }
                 _ => panic!("unknown stream {stream}"),
             };
@@ -64,6 +66,7 @@ fn run_line(line: &str) -> String {
         "wire" => wire::run(&toks),
         "st" => streams::run(&toks),
         "pool" => pool::run(&toks),
+        "srv" => server::run(&toks),
         _ => "unknown-stream".to_string(),
     };
     format!("{input} | {obs}")
